@@ -296,7 +296,8 @@ def gen_bool(c, sc, depth, pure, leafy):
             return paren("%s in %s" % (gen_expr(c, sc, INT, depth + 1, pure), c.pick(ls)))
     if r == 10 and c.allow("chained_comparison"):
         c.use("chained_comparison")
-        a, b, d = (gen_expr(c, sc, INT, depth + 2, pure) for _ in range(3))
+        # operands are pure: like and/or, the links of a chain are lowered eagerly (see effectful_short_circuit)
+        a, b, d = (gen_expr(c, sc, INT, depth + 2, True) for _ in range(3))
         return paren("%s %s %s %s %s" % (a, c.pick(["<", "<=", ">", "=="]), b, c.pick(["<", "<=", ">", "!="]), d))
     if r == 11:
         return c.pick(["True", "False"])
@@ -563,7 +564,7 @@ def stmt_while(c, sc, indent):
     if c.allow("continue_in_while") and c.coin(3, 4):
         c.use("continue_in_while")
         pre = gen_block(c, body, c.draw(st.integers(0, 1)), indent + "    ") if c.coin(1, 2) else []
-        lines += [l for l in pre if l.strip() != "pass"]
+        lines += pre
         lines += [indent + "    if %s:" % gen_expr(c, body, BOOL, 1, True), indent + "        continue"]
     lines += gen_block(c, body, c.draw(st.integers(1, 3)), indent + "    ")
     if c.allow("while_else") and c.coin(3, 4):
